@@ -32,8 +32,7 @@ def ttest2_stat_only(x, y, tail):
 def ttest_paired_stat_only(A, B, tail):
     n = len(A - B)
     df = n - 1
-    sample_ss = np.sum((A - B)**2) - np.sum(A - B)**2 / n
-    unbiased_std = np.sqrt(sample_ss / (n - 1))
+    unbiased_std = np.std(A - B, ddof=1)
     z = np.mean(A - B) / unbiased_std
     t = z * np.sqrt(n)
     if tail == 'both':
